@@ -128,6 +128,12 @@ func (e *Exec) depGlobal(g *ssa.Global, et types.Type) Value {
 		}
 		return errVal(eo)
 	}
+	if !e.initMode {
+		if e.DepGlobals == nil {
+			e.DepGlobals = map[string]bool{}
+		}
+		e.DepGlobals[name] = true
+	}
 	switch et.Underlying().(type) {
 	case *types.Struct, *types.Basic, *types.Array:
 		return e.zeroLenient(et)
